@@ -162,8 +162,15 @@ static inline const char *path_remove_prefix(const char *path,
 
         if (cmp == 0)
         {
-            path = path_iterate(path);
-            prefix = path_iterate(prefix);
+            // path_iterate() answers NULL for an exhausted string
+            const char *next_path = path_iterate(path);
+            const char *next_prefix = path_iterate(prefix);
+            if (next_path == NULL)
+                break;
+            path = next_path;
+            if (next_prefix == NULL)
+                break;
+            prefix = next_prefix;
         }
 
         else
